@@ -25,7 +25,8 @@ def run(ctx) -> None:
     rnd = random.Random(ctx.seed)
     ctx.rule = ("cases = (record sequence from MC_C13's menu, delta, placement, malformation); non-trivial = distinct "
                 "(record sequence, delta, placement, malformation kind)")
-    ctx.trusted = ["TLC 1.8", "spec/Ips.tla encoder/reader", "the fixed surrounding program in harness/drivers.py"]
+    ctx.trusted = ["TLC 1.8", "spec/Ips.tla encoder/reader", "the fixed surrounding program in harness/drivers.py",
+                   "spec/Asm.tla (ips statement) + harness/apr.py renderer/IPS encoder for the Asm part"]
     ctx.assumptions = ["records that overlap the surrounding program's bytes are not generated"]
     mr = 2 if ctx.quick else 3
     r = tlc.run("MC_C13", CFG, tag="c13.mc", env={"MAXRECS": 3, "EMIT": 0, "BIG": 0}, workers=4)
@@ -93,6 +94,7 @@ def run(ctx) -> None:
     rejects, st, gen = tlc.judge_traces("TraceC13", recs, tag="c13.trace", nshards=16, heap="3g")
     ctx.add_states(st, gen, "TraceC13 judging writer calls")
     ctx.traces += len(recs)
+    asm_part(ctx)
     for rj in rejects:
         rj = dict(rj, id=str(kept[int(rj["id"])]))
         m = meta[int(rj["id"])]
@@ -104,7 +106,31 @@ def run(ctx) -> None:
                                           "with": {"ok": o["with"]["ok"], "err": o["with"]["err"], "calls": o["with"]["calls"][:6]}})
 
 
+def asm_part(ctx) -> None:
+    """`.include_ips` as a statement of the Asm machine: every program over the 'ipsfam' alphabet (among position
+    moves, blocks, loops, labels; delta a literal or a constant defined before/after the directive) and seeded
+    programs with the directive anywhere; TraceAsm judges patch pairs and the program's own pairs separately."""
+    from harness import apr, asmfam
+    n = 300 if ctx.quick else 4000
+    randoms = []
+    k = 0
+    while len(randoms) < n:
+        p = apr.gen_program(ctx.seed * 86028121 + k, size=8 + k % 8)
+        k += 1
+        if '"ips"' in __import__("json").dumps(p):
+            randoms.append(p)
+
+    def key(p, clause, detail):
+        return "asm:" + asmfam.default_key(p, clause, detail)
+    progs, res, stats = asmfam.run_families(ctx, [("ipsfam", 4 if ctx.quick else 5)], randoms, "c13.asm", "TraceAsm judging programs with .include_ips", keyfn=key)
+    for j in range(len(progs)):
+        ctx.nontrivial.add(("asm", j))
+
+
 def replay(ctx, data) -> int:
+    if "prog" in data:
+        from harness import asmfam
+        return asmfam.replay(ctx, data)
     if not data.get("task"):
         print("replay of a large case: re-run the check")
         return 0
